@@ -92,6 +92,18 @@ def generate(rng, tier):
             ops.append({"t": round(base + off, 6), "op": "browse", "h": h, "id": f"b{bid}", "types": types,
                         "delay": rng.choice([None, 1000]), "qtype": rng.choice([None, None, "QU", "QM"])})
             bid += 1
+    # a scripted querier on the link (an ordinary mDNS host, or a one-shot legacy resolver that asks from another source
+    # port): the instances that hold registered records for the question hear it as authoritative responders, shortly
+    # before their own browsers are due to ask the same
+    if rng.random() < 0.5:
+        for _ in range(rng.choice([1, 2, 3])):
+            qt = rng.choice([T1, T1, T2])
+            tq = base + rng.choice([0.0, 0.05, 0.5, 0.9, 1.0, 1.05, 4.2, 4.9, 5.05, 9.5]) + rng.random() * 0.1
+            kn = []
+            if rng.random() < 0.2:
+                kn = [wire.RR(qt, wire.T_PTR, 4500, f"Foreign.{qt}").to_json()]
+            ops.append({"t": round(tq, 6), "op": "send", "p": "P", "src_port": rng.choice([5353, 5353, 5354, 49152]),
+                        "msg": {"q": [[qt, 12, 0]], "an": kn, "id": rng.choice([0, 77])}})
     # lookups
     for i, tg in enumerate(targets):
         h = rng.choice(hosts)
